@@ -20,17 +20,17 @@ def wf_dict(st, d):
 
 
 def distinct_names(st, pn):
-    seq = lst(st, pn)
-    j = z3.Int("j!dn")
-    return qforall([j], z3.Implies(z3.And(j >= 0, j < z3.Length(seq)), PIDX(pn, seq[j]) == j), patterns=[seq[j]])
+    from pyvc.base import distinct_elements
+    return distinct_elements(lst(st, pn))
 
 
 class RhoModel:
     """Content of the resolved map after `n_def` defaults, `n_pos` positionals and `n_kw` keywords were applied
     (None = all of them). Later stages override earlier ones, as the statement order in the function does."""
 
-    def __init__(self, H, pn, DEF, args, KW, n_def=None, n_pos=None, n_kw=None):
+    def __init__(self, H, pn, DEF, args, KW, n_def=None, n_pos=None, n_kw=None, po=None):
         self.H, self.pn, self.DEF, self.args, self.KW = H, pn, DEF, args, KW
+        self.po = po  # the set of positional-only names (or None): keywords so named do not bind the parameter
         self.n_def, self.n_pos, self.n_kw = n_def, n_pos, n_kw
 
     def parts(self, k):
@@ -39,11 +39,13 @@ class RhoModel:
         defk = z3.Select(dom(H, self.DEF), k)
         if self.n_def is not None:
             defk = z3.And(defk, DPOS(self.DEF, k) < self.n_def)
-        p = PIDX(self.pn, k)
+        p = PIDX(names, k)
         posk = z3.And(p >= 0, p < z3.Length(names), names[p] == k, p < z3.Length(argv))
         if self.n_pos is not None:
             posk = z3.And(posk, p < self.n_pos)
         kwk = z3.Select(dom(H, self.KW), k)
+        if self.po is not None:
+            kwk = z3.And(kwk, z3.Not(z3.And(self.po != NONE, z3.Select(H.get("set", self.po), k))))
         if self.n_kw is not None:
             kwk = z3.And(kwk, DPOS(self.KW, k) < self.n_kw)
         return defk, posk, kwk, p
@@ -80,13 +82,13 @@ class _Loop:
     def inv(self, c):
         a = self.spec.a
         n = {"def": (c.i, z3.IntVal(0), z3.IntVal(0)), "pos": (None, c.i, z3.IntVal(0)), "kw": (None, None, c.i)}[self.stage]
-        m = RhoModel(c.entry, a["param_names"].t, a["kwdefaults"].t, a["args"].t, a["kwargs"].t, *n)
+        m = RhoModel(c.entry, a["param_names"].t, a["kwdefaults"].t, a["args"].t, a["kwargs"].t, *n, po=a["positional_only"].t if "positional_only" in a else None)
         return m.holds_for(c.st, c.st.vars["resolved_kwargs"].t)
 
 
 class KwargsFromCall(FnSpec):
     addr = "_checkers.py::kwargs_from_call"
-    hints = {"param_names": "list", "kwdefaults": "dict", "args": "tuple", "kwargs": "dict"}
+    hints = {"param_names": "list", "kwdefaults": "dict", "args": "tuple", "kwargs": "dict", "positional_only": "set"}
     ret_fresh = T_DICT
     ret_fields = ("ddom", "dval", "dord")
     ret_hint = "dict"
@@ -96,14 +98,15 @@ class KwargsFromCall(FnSpec):
         self.loops = {"kwdefaults.items()": _Loop(self, "def"), "enumerate(args)": _Loop(self, "pos"), "kwargs.items()": _Loop(self, "kw")}
 
     def requires(self, c):
-        return [("kwdefaults_is_a_dict", wf_dict(c.pre, c.ref("kwdefaults"))), ("kwargs_is_a_dict", wf_dict(c.pre, c.ref("kwargs"))),
-                ("param_names_distinct", distinct_names(c.pre, c.ref("param_names")))]
+        return [("python.kwdefaults_is_a_dict", wf_dict(c.pre, c.ref("kwdefaults"))), ("python.kwargs_is_a_dict", wf_dict(c.pre, c.ref("kwargs"))),
+                ("python.param_names_distinct", distinct_names(c.pre, c.ref("param_names")))]
 
     def setup(self, ex, st, a):
         self.a = a
 
     def ensures_ret(self, c, v):
-        m = RhoModel(c.pre, c.ref("param_names"), c.ref("kwdefaults"), c.ref("args"), c.ref("kwargs"))
+        m = RhoModel(c.pre, c.ref("param_names"), c.ref("kwdefaults"), c.ref("args"), c.ref("kwargs"),
+                     po=c.ref("positional_only") if "positional_only" in c.a else None)
         f = m.holds_for(c.post, v.t)
         return [("fresh", v.t >= c.pre.ctr), ("domain", f[0]), ("values", f[1])]
 
